@@ -3,6 +3,7 @@ import Ruint.Lemmas.GenValue
 import Ruint.Lemmas.ModularLimbs
 import Ruint.Lemmas.GenUintModMod
 import Ruint.Props.C14
+import Ruint.Lemmas.GenGcdWrap
 
 /-!
 # C10 — modular arithmetic returns the canonical residue for every modulus
@@ -159,5 +160,14 @@ theorem gen_mul_mod_limbs_eq (bits : ℕ) (hB : 2 * bits + 63 < 2 ^ 64) (a b m :
     (ha : Canon bits a) (hb : Canon bits b) (hm : Canon bits m) (f : ℕ) (hf : 4 * nlimbs bits + 2 < f) :
     Ruint.Gen.uint_mul_mod f bits (nlimbs bits) a b m = Ruint.ModularL.mulMod bits a b m :=
   Ruint.GenUintMod.mul_mod_eq Ruint.C14.gen_div_eq bits hB a b m ha hb hm f hf
+
+/-- `algorithms::inv_mod` and `Uint::inv_mod` as regenerated in value mode from src/algorithms/gcd/mod.rs / src/modular.rs
+    (guards, reduction of the operand, the Lehmer loop with its cofactor updates, the final `a == ONE` test and sign choice)
+    equal the L2 model of `inv_mod_spec`. -/
+theorem gen_inv_mod_eq (bits L num modulus : ℕ) (hn : num < 2 ^ bits) (hm : modulus < 2 ^ bits) (f : ℕ)
+    (hf : modulus + 1 < f) :
+    Ruint.Gen.val_inv_mod f bits L num modulus = Ruint.Modular.invMod bits num modulus
+      ∧ Ruint.Gen.val_uint_inv_mod f bits L num modulus = Ruint.Modular.invMod bits num modulus :=
+  ⟨Ruint.GenGcd.inv_mod_eq bits L num modulus hn hm f hf, Ruint.GenGcd.uint_inv_mod_eq bits L num modulus hn hm f hf⟩
 
 end Ruint.C10
